@@ -126,6 +126,15 @@ def unary(ctx, P, a, k, rng, full=True):
             continue
         same(ctx, 'op:<<', call(lambda: A << sh), [red(x << sh, k) for x in a], k, sh=sh, **det)
         same(ctx, 'op:>>', call(lambda: A >> sh), [x >> sh for x in a], k, sh=sh, **det)
+    # what an operator returns is a new vector: assigning into the result leaves the operand alone (also for the neutral cases
+    # a<<0, a>>0, a+0, a^0, a|0, a&a, --a)
+    if n:
+        zero = mk(P, [0] * n, k)
+        for nm, f in (('<<0', lambda: A << 0), ('>>0', lambda: A >> 0), ('+0', lambda: A + zero), ('^0', lambda: A ^ zero), ('|0', lambda: A | zero), ('&self', lambda: A & A), ('neg neg', lambda: -(-A)), ('-0', lambda: A - zero)):
+            r = call(f)
+            if not is_exc(r) and r is not None and r.ival:
+                call(r.__setitem__, 0, red(a[0] + 1, k) if k else a[0] + 1)
+                ctx.check('operand-unchanged', list(A.ival) == a and list(zero.ival) == [0] * n, (list(A.ival), list(zero.ival)), (a, [0] * n), after='assigning into the result of a' + nm)
     # e(i): zero beyond the dimension
     for i in (0, n - 1, n, n + 3):
         if i >= 0:
